@@ -84,6 +84,26 @@ def lean_stage(mod, tier, log):
             res["report"] = rep
         except Exception:  # noqa: BLE001
             res["report"] = {}
+        # second translator: the stateful glue (stog.py, utils.py, cli.py) -> Gen/Stog.lean; a method it refuses falls back to
+        # the hand model + correspondence (the other admissible tie), recorded in the evidence; it is not a violation
+        res["stog_tie"] = None
+        gen_mod = getattr(mod, "LEAN_GEN", None)
+        if gen_mod:
+            rc_s, out_s = sh(["python3", os.path.join(VERIF, "tools", "translate_stog.py"), os.path.join(REPO, "src", "pystog"),
+                              os.path.join(LEAN_DIR, "PystogVerif", "Gen")])
+            log.append("translate_stog: " + (out_s.strip().splitlines()[0] if out_s.strip() else "(no output)"))
+            try:
+                srep = json.load(open(os.path.join(LEAN_DIR, "PystogVerif", "Gen", "stog_report.json")))["functions"] if rc_s == 0 else {}
+            except Exception:  # noqa: BLE001
+                srep = {}
+            need = list(getattr(mod, "STOG_METHODS", []))
+            bad = {m: srep.get(m, "translator failed: " + out_s[-300:]) for m in need if srep.get(m) != "ok"}
+            if bad:
+                res["stog_tie"] = dict(tie="correspondence only", refused=bad)
+                log.append("stog translator refused " + ", ".join(f"{k} ({v})" for k, v in bad.items()) +
+                           ": theorems on generated code skipped, hand model + correspondence decide")
+            else:
+                res["stog_tie"] = dict(tie="translator + correspondence", module=gen_mod, methods=need)
         # driver first (needed by the correspondence even when the proofs break)
         # only the drivers this property's correspondence uses (drv: generated code; drvm: hand models on generated code;
         # drvp: hand models independent of generated code), so that an unrelated module cannot break it
@@ -103,6 +123,8 @@ def lean_stage(mod, tier, log):
                     pass
         names, path = theorem_names(mod.LEAN)
         extra_mods = list(getattr(mod, "LEAN_EXTRA", []))
+        if res["stog_tie"] and res["stog_tie"].get("module"):
+            extra_mods.append(res["stog_tie"]["module"])
         for em in extra_mods:
             try:
                 names += theorem_names(em)[0]
@@ -377,7 +399,7 @@ def main():
                             checker_cmd=lean.get("audit_cmd", f"cd lean && lake build {mod.LEAN}"),
                             trusted_base=TRUSTED_BASE + list(getattr(mod, "TRUSTED", [])),
                             obligation_names=lean["obligations"], axioms=lean["axioms"], obligations_failed=lean["failed"],
-                            refused_functions=lean["refused"], leanchecker=lean.get("leanchecker"),
+                            refused_functions=lean["refused"], leanchecker=lean.get("leanchecker"), stog_translator=lean.get("stog_tie"),
                             evaluations=orc["evaluations"] + corr_res["evaluations"],
                             distinct_nontrivial=orc["distinct_nontrivial"],
                             rule=getattr(mod, "RULE", ""), samples=orc["samples"] or corr_res.get("samples", []),
